@@ -27,6 +27,11 @@ def tokOf : OutFrame → Nat × String
     let head := (fields.take 5).map kvTok
     let tail := sortStrs ((fields.drop 5).map kvTok)
     (sid, s!"H{sid}:{b2s es}:1:ok:" ++ ",".intercalate (head ++ tail))
+  | .hfrag sid es _ => (sid, s!"H{sid}:{b2s es}:0:ok:")
+  | .cont sid eh _ fields =>
+    let head := (fields.take 5).map kvTok
+    let tail := sortStrs ((fields.drop 5).map kvTok)
+    (sid, s!"C{sid}:{b2s eh}:ok:" ++ ",".intercalate (head ++ tail))
   | .data sid len es => (sid, s!"D{sid}:{len}:{b2s es}")
   | .rst sid code => (sid, s!"R{sid}:{code}")
   | .settingsAck => (0, "A0")
